@@ -12,6 +12,18 @@ CHECKS = {
          "safety asserted on the real block ids and precommitted heights.",
          "Bounded model, no unbounded proof; slots abstracted; hash collision freeness; my transcription of LIP-0058 is bound to the code by the replay.",
          "TLA+ fork-tree model checked by TLC + spec-to-implementation replay of TLC-generated trees", "DESIGN.md section 4 C01"),
+ "C02": ("model_checking",
+         "Trace validation: a seeded driver feeds header chains with parameter-change schedules (join/leave/re-weight/threshold, batch sizes 2-5, windows that slide) "
+         "to the real liskbft.Module and logs the projected BFT store after every call; TLC accepts the log only if every logged state equals the state computed by "
+         "the LiskBFT operators (transcribed from LIP-0056/0058), and checks RoundRobinFinal/HeightsSane/Monotone in every state. Plus exhaustive single-chain enumeration by TLC replayed through the real module.",
+         "Spec written from the LIPs; small integer weights; 5 validator identities; chains are sampled (seeded), the single-chain enumeration is exhaustive within 7 blocks / 2 validators.",
+         "TLA+ trace validation of the real liskbft.Module (TLC) + replay of TLC-enumerated chains", "DESIGN.md section 4 C02"),
+ "C07": ("model_checking",
+         "TLC enumerates all header pairs over field ranges 0..5 x 2 generators (186k pairs), checks operational contradiction = declarative definition, symmetry, "
+         "never across generators; prints truth tables for contradiction, the fork-choice predicate cascade (2592 rows) and header priority; the harness evaluates the real "
+         "functions on every row and on uint32-range pairs via rank compression. The chain-level rule is validated by IsHeaderContradictingChain probes in the LiskBFT trace.",
+         "Comparison-only structure of the contradiction spec justifies rank compression; receive times are placed mid-slot with 1000 s slots.",
+         "TLC-enumerated truth tables of a TLA+ transcription of LIP-0014 compared with the real functions", "DESIGN.md section 4 C07"),
 }
 NA_REASON = "check not built yet in this round (planned, see DESIGN.md section 4); not claimed until its TLA+ specification and binding exist"
 
